@@ -147,6 +147,30 @@ def random_seq(rng, n):
     return ops
 
 
+def long_histories(rng, n):
+    """histories that fill the speed window: more than 1000 samples inside the 30 s estimate period (the sample cap evicts,
+    not the age rule), a first step much larger or smaller than the rest, by advance() or update(advance=), some with a
+    stall long enough for the age rule to empty the window afterwards"""
+    out = []
+    for j in range(n):
+        big = [4000, 1, 4000, 20][j % 4]
+        small = [1, 7, 2, 1][j % 4]
+        via_update = j % 3 == 1
+        ops = [dict(k="add", id=1, total=2 * 10 ** 9, completed=0, start=True), dict(k="tick", d=1)]
+        def adv(a):
+            return dict(k="update", id=1, total=NONE, completed=NONE, advance=some(a)) if via_update else dict(k="advance", id=1, a=a)
+        ops.append(adv(big))
+        per = rng.choice([38, 40, 45])
+        for i in range(1, rng.choice([1040, 1100, 1250]) + 1):
+            ops.append(adv(small))
+            if i % per == 0:
+                ops.append(dict(k="tick", d=1))
+        if j % 2:
+            ops += [dict(k="tick", d=31), adv(small), dict(k="tick", d=1), adv(small)]
+        out.append(ops)
+    return out
+
+
 # ---- track() ---------------------------------------------------------------------------------
 
 def run_track(n, gen, auto, strategy=None, total_delta=0, given_task=False):
@@ -376,6 +400,7 @@ def run(chk: Check):
     chk.notes["tlc_generated_histories"] = len(hists)
     for _ in range(chk.pick(1500, 30000)):
         hists.append(random_seq(chk.rng, chk.rng.randint(3, 25)))
+    hists += long_histories(chk.rng, chk.pick(3, 12))
     chk.mark("M2-generate")
     judge_seq(chk, hists)
     chk.mark("sequential-exec+judge")
